@@ -117,26 +117,26 @@ Section Stmt.
   Lemma fuel_for_ge ts : 4 * List.length ts <= fuel_for ts.
   Proof. unfold fuel_for. lia. Qed.
 
-  Theorem rt_create p : pipe_ok p -> forall q, parse_lql (tk_lql q (LCreate (Some p))) = Some (LCreate (Some p)).
+  Theorem rt_create p : pipe_ok p -> parse_lql (tk_lql (LCreate (Some p))) = Some (LCreate (Some p)).
   Proof.
-    intros Hp q. cbn [LqlPrint.tk_lql]. unfold parse_lql_tokens, p_lql. cbv zeta beta. lits.
+    intros Hp. cbn [LqlPrint.tk_lql]. unfold parse_lql_tokens, parse_lql_tokens_v, p_lql. cbv zeta beta. lits.
     rewrite rt_pipe; [reflexivity | exact Hp |].
     etransitivity; [|apply fuel_for_ge]. cbn [List.length]. lia.
   Qed.
 
-  Theorem rt_create_none q : parse_lql (tk_lql q (LCreate None)) = Some (LCreate None).
+  Theorem rt_create_none : parse_lql (tk_lql (LCreate None)) = Some (LCreate None).
   Proof. reflexivity. Qed.
 
-  Theorem rt_delete q n : parse_lql (tk_lql q (LDelete n)) = Some (LDelete n).
+  Theorem rt_delete n : parse_lql (tk_lql (LDelete n)) = Some (LDelete n).
   Proof. destruct n; reflexivity. Qed.
 
-  Theorem rt_describe_pipe q n : parse_lql (tk_lql q (LDescribe (DPipe n))) = Some (LDescribe (DPipe n)).
+  Theorem rt_describe_pipe n : parse_lql (tk_lql (LDescribe (DPipe n))) = Some (LDescribe (DPipe n)).
   Proof. reflexivity. Qed.
 
-  Theorem rt_describe_partition q t : parse_tags (pr_tags tags_line t) = Some t ->
-    parse_lql (tk_lql q (LDescribe (DPartition t))) = Some (LDescribe (DPartition t)).
+  Theorem rt_describe_partition t : parse_tags (pr_tags tags_line t) = Some t ->
+    parse_lql (tk_lql (LDescribe (DPartition t))) = Some (LDescribe (DPartition t)).
   Proof.
-    intros H. cbn [LqlPrint.tk_lql]. unfold LqlPrint.tk_describe, parse_lql_tokens, p_lql. cbv zeta beta. lits.
+    intros H. cbn [LqlPrint.tk_lql]. unfold LqlPrint.tk_describe, parse_lql_tokens, parse_lql_tokens_v, p_lql. cbv zeta beta. lits.
     unfold p_describe, seq_kw. lits. cbn [p_tok existsb is_ty t_ty tokty_eqb orb t_val]. rewrite H. reflexivity.
   Qed.
 
@@ -153,10 +153,12 @@ Section Stmt.
     match s_source s with Some x => wf_source x | None => True end /\
     match s_range s with Some r => range_ok r | None => True end /\
     match s_where s with Some e => wf_expr e = true | None => True end /\
-    oint_ok (s_offset s) /\ oint_ok (s_limit s) /\
-    (* the statement is not the bare keyword *)
-    (is_some (s_format s) || is_some (s_source s) || is_some (s_range s) || is_some (s_where s) ||
-     is_some (s_pos s) || is_some (s_offset s) || is_some (s_limit s) = true).
+    oint_ok (s_offset s) /\ oint_ok (s_limit s).
+
+  (* some clause is present: the grammar's Select node produced a value (otherwise ParseLql supplies &Select{}) *)
+  Definition select_any (s : select) : bool :=
+    is_some (s_format s) || is_some (s_source s) || is_some (s_range s) || is_some (s_where s) ||
+    is_some (s_pos s) || is_some (s_offset s) || is_some (s_limit s).
 
   Notation tk_range := (tk_range fmt_time).
   Notation tk_select := (tk_select tags_line fmt_time).
@@ -211,9 +213,9 @@ Section Stmt.
   Qed.
 
   Lemma rt_select s fuel : select_ok s -> 4 * List.length (tk_select s) <= fuel ->
-    p_select parse_tags parse_time fuel (List.tl (tk_select s)) = ROk s [].
+    p_select parse_tags parse_time fuel (List.tl (tk_select s)) = if select_any s then ROk s [] else RNo.
   Proof.
-    intros (Hfmt & Hsrc & Hrng & Hwhr & Hoff & Hlim & Hany) Hf.
+    intros (Hfmt & Hsrc & Hrng & Hwhr & Hoff & Hlim) Hf.
     destruct s as [fmt src rng whr pos off lim]. cbn [s_format s_source s_range s_where s_pos s_offset s_limit] in *.
     unfold LqlPrint.tk_select in *. cbn [s_format s_source s_range s_where s_pos s_offset s_limit List.tl] in *.
     set (C7 := tk_clause "LIMIT" (fun z => [num_tok z]) lim) in *.
@@ -271,21 +273,25 @@ Section Stmt.
     rewrite (opt_kw_int "OFFSET" off); [| reflexivity | exact Hoff |].
     2:{ destruct off; [exact I|]. apply (kw_head_not_lit _ K6); [exact H7|reflexivity]. }
     rewrite (opt_kw_int "LIMIT" lim); [| reflexivity | exact Hlim | destruct lim; exact I].
-    rewrite Hany. reflexivity.
+    reflexivity.
   Qed.
 
-  Theorem rt_select_stmt s q : select_ok s -> parse_lql (tk_lql q (LSelect s)) = Some (LSelect s).
+  (* a SELECT with some clause comes back from the grammar; the bare SELECT (every member nil) comes back from
+     ParseLql's own rule for the keyword-only text *)
+  Theorem rt_select_stmt s : select_ok s -> parse_lql (tk_lql (LSelect s)) = Some (LSelect s).
   Proof.
-    intros Hs. cbn [LqlPrint.tk_lql]. unfold parse_lql_tokens.
+    intros Hs. cbn [LqlPrint.tk_lql]. unfold parse_lql_tokens, parse_lql_tokens_v.
     pose proof (rt_select s (fuel_for (tk_select s)) Hs (fuel_for_ge _)) as H.
     unfold LqlPrint.tk_select in *. cbn [List.tl] in H.
-    unfold p_lql. cbv zeta beta. lits. rewrite H. reflexivity.
+    unfold p_lql. cbv zeta beta. lits. rewrite H.
+    destruct (select_any s) eqn:Ea; [reflexivity|].
+    destruct s as [[f|] [x|] [r|] [w|] [p|] [o|] [l|]]; try discriminate Ea. reflexivity.
   Qed.
 
   (* ---------------- the optional source of SHOW PARTITIONS / TRUNCATE when it is absent ----------------
      participle tries the Source on whatever follows; a clause keyword is accepted as an operand, the
      next token is not an operator, and the error surfaces one token deep: the group is skipped *)
-  Definition clause_kws : list string := ["OFFSET"; "LIMIT"; "MINSIZE"; "MAXSIZE"; "BEFORE"].
+  Definition clause_kws : list string := ["OFFSET"; "LIMIT"; "MINSIZE"; "MAXSIZE"; "BEFORE"; "MAXDBSIZE"].
   (* a value token behind a clause keyword that cannot be taken for an operator or a parenthesis *)
   Definition plain_tok (x : token) : Prop := is_op x = false /\ lit "(" x = false.
 
@@ -300,7 +306,7 @@ Section Stmt.
   Proof.
     intros H Hk [Hx Hl].
     assert (Hkw : lit "(" (kw_tok k) = false /\ lit "NOT" (kw_tok k) = false).
-    { unfold clause_kws in Hk. cbn [In] in Hk. destruct Hk as [<-|[<-|[<-|[<-|[<-|[]]]]]]; split; reflexivity. }
+    { unfold clause_kws in Hk. cbn [In] in Hk. destruct Hk as [<-|[<-|[<-|[<-|[<-|[<-|[]]]]]]]; split; reflexivity. }
     destruct Hkw as [Hk1 Hk2].
     set (ts := kw_tok k :: x :: rest).
     assert (Hid : forall f, 2 <= f -> p_ident f ts = ROk (Ident (B k) INil) (x :: rest)).
@@ -385,14 +391,14 @@ Section Stmt.
     | _, _ => False
     end.
 
-  Theorem rt_show_stmt s q : show_ok s -> parse_lql (tk_lql q (LShow s)) = Some (LShow s).
+  Theorem rt_show_stmt s : show_ok s -> parse_lql (tk_lql (LShow s)) = Some (LShow s).
   Proof.
     intros Hs. destruct s as [[[src off lim]|] [[void off' lim']|]]; cbn [show_ok sh_parts sh_pipes pt_source pt_offset pt_limit pp_void pp_offset pp_limit] in Hs;
       try contradiction.
     - (* SHOW PARTITIONS *)
       cbn [LqlPrint.tk_lql]. unfold LqlPrint.tk_show. cbn [sh_parts sh_pipes pt_source pt_offset pt_limit].
       rewrite app_nil_r. change (tk_osource tags_line src ++ _) with (tk_sol src off lim).
-      unfold parse_lql_tokens, p_lql. cbv zeta beta. lits.
+      unfold parse_lql_tokens, parse_lql_tokens_v, p_lql. cbv zeta beta. lits.
       unfold p_show, seq_kw. lits.
       rewrite rt_src_off_lim; [reflexivity | exact Hs |].
       unfold fuel_for. cbn [List.length]. lia.
@@ -400,78 +406,84 @@ Section Stmt.
       destruct Hs as [-> Hs].
       cbn [LqlPrint.tk_lql]. unfold LqlPrint.tk_show. cbn [sh_parts sh_pipes pp_void pp_offset pp_limit app].
       change (tk_clause "OFFSET" _ off' ++ tk_clause "LIMIT" _ lim') with (tk_sol None off' lim').
-      unfold parse_lql_tokens, p_lql. cbv zeta beta. lits.
+      unfold parse_lql_tokens, parse_lql_tokens_v, p_lql. cbv zeta beta. lits.
       unfold p_show, seq_kw. lits.
       rewrite rt_src_off_lim; [reflexivity | exact Hs |].
       unfold fuel_for. cbn [List.length]. lia.
   Qed.
 
-  (* ---------------- TRUNCATE (without MAXDBSIZE, which the printer drops) ---------------- *)
-  Variable quote : bytes -> bytes.
-  Notation tk_truncate := (tk_truncate tags_line fmt_time quote).
+  (* ---------------- TRUNCATE ---------------- *)
+  Notation tk_truncate := (tk_truncate tags_line fmt_time).
 
-  Definition size_ok (n : N) : Prop := parse_size (pr_Z (as_int64 n)) = Some n /\ plain_tok (num_tok (as_int64 n)).
+  (* a size is printed in decimal (strconv.FormatUint): the environment's parse_size must read it back *)
+  Definition size_ok (n : N) : Prop := parse_size (pr_N n) = Some n /\ plain_tok (size_tok n).
   Definition osize_ok (n : option N) : Prop := match n with Some n => size_ok n | None => True end.
-  (* the BEFORE value is printed quoted twice: the token holds the quoted time text, which must still parse to the time *)
-  Definition before_ok (b : Z) : Prop := parse_time (quote (fmt_time b)) = Some b /\ plain_tok (str_tok (quote (fmt_time b))).
+  (* the BEFORE value is the quoted time text: the String token holds the time text itself *)
+  Definition before_ok (b : Z) : Prop := parse_time (fmt_time b) = Some b /\ plain_tok (str_tok (fmt_time b)).
 
   Definition truncate_ok (t : truncate) : Prop :=
-    tr_maxdb t = None /\
     match tr_source t with Some x => wf_source x | None => True end /\
     osize_ok (tr_min t) /\ osize_ok (tr_max t) /\
     match tr_before t with Some b => before_ok b | None => True end /\
+    osize_ok (tr_maxdb t) /\
     (tr_dryrun t = true \/ match tr_source t with Some x => not_lit "DRYRUN" (tk_source x) | None => True end).
 
   Lemma opt_kw_size kw (v : option N) rest : lit kw (kw_tok kw) = true -> osize_ok v ->
     match v with Some _ => True | None => not_lit kw rest end ->
-    opt (p_kw_size parse_size kw (tk_clause kw (fun n => [num_tok (as_int64 n)]) v ++ rest))
-        (tk_clause kw (fun n => [num_tok (as_int64 n)]) v ++ rest) = ROk (v, is_some v) rest.
+    opt (p_kw_size parse_size kw (tk_clause kw (fun n => [size_tok n]) v ++ rest))
+        (tk_clause kw (fun n => [size_tok n]) v ++ rest) = ROk (v, is_some v) rest.
   Proof.
     intros Hk Hv Hn. unfold p_kw_size. apply opt_clause; [exact Hk|].
-    destruct v as [n|]; [|exact Hn]. cbn. destruct Hv as [Hv _]. rewrite Hv. reflexivity.
+    destruct v as [n|]; [|exact Hn]. cbn -[pr_N]. destruct Hv as [Hv _]. rewrite Hv. reflexivity.
   Qed.
 
-  Theorem rt_truncate_stmt t : truncate_ok t -> parse_lql (tk_lql quote (LTruncate t)) = Some (LTruncate t).
+  Theorem rt_truncate_stmt t : truncate_ok t -> parse_lql (tk_lql (LTruncate t)) = Some (LTruncate t).
   Proof.
-    intros (Hm & Hs & Hmin & Hmax & Hb & Hd). destruct t as [dry src mn mx bf mdb].
-    cbn [tr_dryrun tr_source tr_min tr_max tr_before tr_maxdb] in *. subst mdb.
-    cbn [LqlPrint.tk_lql]. unfold LqlPrint.tk_truncate. cbn [tr_dryrun tr_source tr_min tr_max tr_before].
-    set (C4 := tk_clause "BEFORE" (fun b => [str_tok (quote (fmt_time b))]) bf).
-    set (C3 := tk_clause "MAXSIZE" (fun n => [num_tok (as_int64 n)]) mx).
-    set (C2 := tk_clause "MINSIZE" (fun n => [num_tok (as_int64 n)]) mn).
-    assert (H4 : kw_head ["BEFORE"] (C4 ++ [])) by (apply kw_head_clause; [left; reflexivity|left; reflexivity]).
-    assert (H3 : kw_head ["MAXSIZE"; "BEFORE"] (C3 ++ C4 ++ [])).
+    intros (Hs & Hmin & Hmax & Hb & Hmdb & Hd). destruct t as [dry src mn mx bf mdb].
+    cbn [tr_dryrun tr_source tr_min tr_max tr_before tr_maxdb] in *.
+    cbn [LqlPrint.tk_lql]. unfold LqlPrint.tk_truncate. cbn [tr_dryrun tr_source tr_min tr_max tr_before tr_maxdb].
+    set (C5 := tk_clause "MAXDBSIZE" (fun n => [size_tok n]) mdb).
+    set (C4 := tk_clause "BEFORE" (fun b => [str_tok (fmt_time b)]) bf).
+    set (C3 := tk_clause "MAXSIZE" (fun n => [size_tok n]) mx).
+    set (C2 := tk_clause "MINSIZE" (fun n => [size_tok n]) mn).
+    assert (H5 : kw_head ["MAXDBSIZE"] (C5 ++ [])) by (apply kw_head_clause; [left; reflexivity|left; reflexivity]).
+    assert (H4 : kw_head ["BEFORE"; "MAXDBSIZE"] (C4 ++ C5 ++ [])).
+    { apply kw_head_clause; [left; reflexivity|]. eapply kw_head_weaken; [|exact H5]. intros x Hx. right. exact Hx. }
+    assert (H3 : kw_head ["MAXSIZE"; "BEFORE"; "MAXDBSIZE"] (C3 ++ C4 ++ C5 ++ [])).
     { apply kw_head_clause; [left; reflexivity|]. eapply kw_head_weaken; [|exact H4]. intros x Hx. right. exact Hx. }
-    assert (H2 : kw_head ["MINSIZE"; "MAXSIZE"; "BEFORE"] (C2 ++ C3 ++ C4 ++ [])).
+    assert (H2 : kw_head ["MINSIZE"; "MAXSIZE"; "BEFORE"; "MAXDBSIZE"] (C2 ++ C3 ++ C4 ++ C5 ++ [])).
     { apply kw_head_clause; [left; reflexivity|]. eapply kw_head_weaken; [|exact H3]. intros x Hx. right. exact Hx. }
-    assert (Hsoft : soft_rest (C2 ++ C3 ++ C4 ++ [])).
-    { unfold C2, C3, C4. destruct mn as [n|]; cbn [tk_clause app].
+    assert (Hsoft : soft_rest (C2 ++ C3 ++ C4 ++ C5 ++ [])).
+    { unfold C2, C3, C4, C5. destruct mn as [n|]; cbn [tk_clause app].
       - right. eexists "MINSIZE", _, _. split; [right; right; left; reflexivity|]. split; [exact (proj2 Hmin)|reflexivity].
       - destruct mx as [n|]; cbn [tk_clause app].
         + right. eexists "MAXSIZE", _, _. split; [right; right; right; left; reflexivity|]. split; [exact (proj2 Hmax)|reflexivity].
-        + destruct bf as [b|]; cbn [tk_clause app]; [|left; reflexivity].
-          right. eexists "BEFORE", _, _. split; [right; right; right; right; left; reflexivity|]. split; [exact (proj2 Hb)|reflexivity]. }
-    rewrite <- (app_nil_r C4).
-    unfold parse_lql_tokens, p_lql. cbv zeta beta. lits.
-    set (body := (if dry then [kw_tok "DRYRUN"] else []) ++ tk_osource tags_line src ++ C2 ++ C3 ++ C4 ++ []).
+        + destruct bf as [b|]; cbn [tk_clause app].
+          * right. eexists "BEFORE", _, _. split; [right; right; right; right; left; reflexivity|]. split; [exact (proj2 Hb)|reflexivity].
+          * destruct mdb as [n|]; cbn [tk_clause app]; [|left; reflexivity].
+            right. eexists "MAXDBSIZE", _, _. split; [right; right; right; right; right; left; reflexivity|].
+            split; [exact (proj2 Hmdb)|reflexivity]. }
+    rewrite <- (app_nil_r C5).
+    unfold parse_lql_tokens, parse_lql_tokens_v, p_lql. cbv zeta beta. lits.
+    set (body := (if dry then [kw_tok "DRYRUN"] else []) ++ tk_osource tags_line src ++ C2 ++ C3 ++ C4 ++ C5 ++ []).
     set (fuel := fuel_for (kw_tok "TRUNCATE" :: body)).
     assert (Hfuel : 4 * List.length body + 8 <= fuel) by (unfold fuel, fuel_for; cbn [List.length]; lia).
-    assert (Hp : p_truncate parse_tags parse_time parse_size fuel body = ROk (Truncate dry src mn mx bf None) []).
+    assert (Hp : p_truncate parse_tags parse_time parse_size fuel body = ROk (Truncate dry src mn mx bf mdb) []).
     { unfold p_truncate.
       (* DRYRUN *)
       assert (E0 : (let '(dry0, r0) := match body with
                                        | t :: r => if lit "DRYRUN" t then (true, r) else (false, body)
                                        | [] => (false, body)
-                                       end in (dry0, r0)) = (dry, tk_osource tags_line src ++ C2 ++ C3 ++ C4 ++ [])).
+                                       end in (dry0, r0)) = (dry, tk_osource tags_line src ++ C2 ++ C3 ++ C4 ++ C5 ++ [])).
       { unfold body. destruct dry; cbn [app].
         - lits. reflexivity.
         - destruct Hd as [Hd|Hd]; [discriminate|].
           destruct src as [x|]; cbn [tk_osource].
           + pose proof (tk_source_nonempty tags_line x) as Hne. destruct (tk_source x) as [|t0 tl0] eqn:Ex; [contradiction|].
             cbn [app]. cbn in Hd. rewrite Hd. reflexivity.
-          + cbn [app]. destruct (C2 ++ C3 ++ C4 ++ []) as [|t0 tl0] eqn:Ec; [reflexivity|].
+          + cbn [app]. destruct (C2 ++ C3 ++ C4 ++ C5 ++ []) as [|t0 tl0] eqn:Ec; [reflexivity|].
             assert (Hn : not_lit "DRYRUN" (t0 :: tl0)).
-            { apply (kw_head_not_lit _ ["MINSIZE"; "MAXSIZE"; "BEFORE"]); [exact H2|reflexivity]. }
+            { apply (kw_head_not_lit _ ["MINSIZE"; "MAXSIZE"; "BEFORE"; "MAXDBSIZE"]); [exact H2|reflexivity]. }
             cbn in Hn. rewrite Hn. reflexivity. }
       destruct (match body with
                 | t :: r => if lit "DRYRUN" t then (true, r) else (false, body)
@@ -479,22 +491,25 @@ Section Stmt.
                 end) as [dry0 r0] eqn:Em.
       cbn zeta in E0. injection E0 as -> ->.
       (* source *)
-      assert (E1 : opt (p_source parse_tags fuel (tk_osource tags_line src ++ C2 ++ C3 ++ C4 ++ [])) (tk_osource tags_line src ++ C2 ++ C3 ++ C4 ++ [])
-                   = ROk (src, true) (C2 ++ C3 ++ C4 ++ [])).
+      assert (E1 : opt (p_source parse_tags fuel (tk_osource tags_line src ++ C2 ++ C3 ++ C4 ++ C5 ++ [])) (tk_osource tags_line src ++ C2 ++ C3 ++ C4 ++ C5 ++ [])
+                   = ROk (src, true) (C2 ++ C3 ++ C4 ++ C5 ++ [])).
       { destruct src as [x|]; cbn [tk_osource].
         - apply opt_source_some; [exact Hs | | |].
           + unfold body in Hfuel. rewrite !app_length in Hfuel. cbn [tk_osource] in Hfuel. lia.
-          + apply (kw_head_not_lit _ ["MINSIZE"; "MAXSIZE"; "BEFORE"]); [exact H2|reflexivity].
-          + apply (kw_head_not_lit _ ["MINSIZE"; "MAXSIZE"; "BEFORE"]); [exact H2|reflexivity].
+          + apply (kw_head_not_lit _ ["MINSIZE"; "MAXSIZE"; "BEFORE"; "MAXDBSIZE"]); [exact H2|reflexivity].
+          + apply (kw_head_not_lit _ ["MINSIZE"; "MAXSIZE"; "BEFORE"; "MAXDBSIZE"]); [exact H2|reflexivity].
         - cbn [app]. apply opt_source_none; [lia|exact Hsoft]. }
       rewrite E1.
       rewrite (opt_kw_size "MINSIZE" mn); [| reflexivity | exact Hmin |].
-      2:{ destruct mn; [exact I|]. apply (kw_head_not_lit _ ["MAXSIZE"; "BEFORE"]); [exact H3|reflexivity]. }
+      2:{ destruct mn; [exact I|]. apply (kw_head_not_lit _ ["MAXSIZE"; "BEFORE"; "MAXDBSIZE"]); [exact H3|reflexivity]. }
       rewrite (opt_kw_size "MAXSIZE" mx); [| reflexivity | exact Hmax |].
-      2:{ destruct mx; [exact I|]. apply (kw_head_not_lit _ ["BEFORE"]); [exact H4|reflexivity]. }
-      rewrite (opt_clause "BEFORE" _ (fun b => [str_tok (quote (fmt_time b))]) bf []); [| reflexivity |].
-      2:{ destruct bf as [b|]; [|exact I]. cbn. destruct Hb as [Hb _]. rewrite Hb. reflexivity. }
-      cbn [p_kw_size seq_kw opt]. destruct dry; reflexivity. }
+      2:{ destruct mx; [exact I|]. apply (kw_head_not_lit _ ["BEFORE"; "MAXDBSIZE"]); [exact H4|reflexivity]. }
+      rewrite (opt_clause "BEFORE" _ (fun b => [str_tok (fmt_time b)]) bf (C5 ++ [])); [| reflexivity |].
+      2:{ destruct bf as [b|].
+          - cbn. destruct Hb as [Hb _]. rewrite Hb. reflexivity.
+          - apply (kw_head_not_lit _ ["MAXDBSIZE"]); [exact H5|reflexivity]. }
+      rewrite (opt_kw_size "MAXDBSIZE" mdb); [| reflexivity | exact Hmdb | destruct mdb; exact I].
+      rewrite !orb_true_r. reflexivity. }
     fold body. fold fuel. rewrite Hp. reflexivity.
   Qed.
 
@@ -512,17 +527,43 @@ Section Stmt.
     | LDelete _ => True
     end.
 
-  Theorem stmt_roundtrip l : stmt_ok l -> parse_lql (tk_lql quote l) = Some l.
+  Theorem stmt_roundtrip l : stmt_ok l -> parse_lql (tk_lql l) = Some l.
   Proof.
     destruct l as [|s|[t|n]|t|s|[p|]|n]; cbn [stmt_ok]; intros H.
     - contradiction.
-    - exact (rt_select_stmt s quote H).
-    - exact (rt_describe_partition quote t H).
-    - exact (rt_describe_pipe quote n).
+    - exact (rt_select_stmt s H).
+    - exact (rt_describe_partition t H).
+    - exact (rt_describe_pipe n).
     - exact (rt_truncate_stmt t H).
-    - exact (rt_show_stmt s quote H).
-    - exact (rt_create p H quote).
-    - exact (rt_create_none quote).
-    - exact (rt_delete quote n).
+    - exact (rt_show_stmt s H).
+    - exact (rt_create p H).
+    - exact rt_create_none.
+    - exact (rt_delete n).
+  Qed.
+
+  (* ParseLql never returns the statement with no member *)
+  Theorem parse_lql_not_none ts : parse_lql ts <> Some LNone.
+  Proof.
+    unfold parse_lql_tokens, parse_lql_tokens_v.
+    destruct (top (p_lql parse_tags parse_time parse_size (fuel_for ts) ts)) as [l|]; [|discriminate].
+    destruct l; cbn [lql_post]; try discriminate.
+    change code_bare_keyword_accepted with false. cbv iota.
+    destruct ts as [|[[| | | | |] v] [|t2 r]]; try discriminate.
+    destruct (fold_eq v (B "SELECT")); discriminate.
+  Qed.
+
+  (* an empty format string is not printed (addStringIfNotEmpty): the statement comes back with no format, which
+     is what the empty format means to its only reader (client/shell: GetStringVal(s.Format, "") != "") *)
+  Definition drop_empty_format (s : select) : select :=
+    match s_format s with
+    | Some [] => Select None (s_source s) (s_range s) (s_where s) (s_pos s) (s_offset s) (s_limit s)
+    | _ => s
+    end.
+
+  Theorem rt_select_empty_format s : select_ok (drop_empty_format s) ->
+    parse_lql (tk_lql (LSelect s)) = Some (LSelect (drop_empty_format s)).
+  Proof.
+    intros H. rewrite <- (rt_select_stmt _ H). f_equal.
+    destruct s as [[[|b f]|] src rng whr pos off lim]; reflexivity.
   Qed.
 End Stmt.
